@@ -246,7 +246,7 @@ func (e *GasEnv) BulkGas(seed int64, g, n int) (map[string]interface{}, error) {
 		seen[i] = map[triple]bool{}
 		for j := 0; j < n; j++ {
 			c := e.planCall(r, i)
-			res := execute(e.Calib, c, e.Tmpl[i].Clone(nil))
+			res := execute(e.Calib, c, e.Tmpl[i].Clone(nil), e.SC[i].Clone(nil))
 			if res.charge < 0 {
 				errs[i] = fmt.Errorf("calibration of %s failed: %s", c.Fn, res.err)
 				return
@@ -255,7 +255,7 @@ func (e *GasEnv) BulkGas(seed int64, g, n int) (map[string]interface{}, error) {
 			if fn, err := e.Cont.Get(c.Fn); err == nil {
 				fn.IsActive()
 			}
-			got := execute(e.Cont, c, e.Tmpl[i].Clone(nil))
+			got := execute(e.Cont, c, e.Tmpl[i].Clone(nil), e.SC[i].Clone(nil))
 			seen[i][triple{int(got.charge), c.M, c.N}] = true
 		}
 		mu.Lock()
